@@ -1325,7 +1325,7 @@ def gen_cases(rng, tier):
                 lines.append("burst %d %d" % (rng.choice(allc), rng.randrange(1, 40)))
         yield {"lines": lines, "meta": {"kind": "sequential"}}
     # forced interleavings
-    for n in range(1500 if quick else 40000):
+    for n in range(700 if quick else 40000):
         lines = []
         fams = _prelude(rng, lines)
         f = rng.choice(list(fams))
